@@ -33,6 +33,7 @@ type c29sCase struct {
 	Parser string `json:"parser"`
 	Units  []int  `json:"units"`  // indices into the language's statement list
 	Break  int    `json:"break"`  // >0: a broken statement is inserted after this many units
+	Every  int    `json:"every,omitempty"` // >0: and again after every so many further units
 	Cancel []int  `json:"cancel"` // event numbers at which a run cancels (0: before the start)
 }
 
@@ -64,7 +65,7 @@ func (c *c29sCase) source() string {
 	var sb strings.Builder
 	sb.WriteString(u.head)
 	for i, x := range c.Units {
-		if c.Break > 0 && i == c.Break {
+		if c.Break > 0 && (i == c.Break || c.Every > 0 && i > c.Break && (i-c.Break)%c.Every == 0) {
 			sb.WriteString(u.broken)
 		}
 		sb.WriteString(u.units[x%len(u.units)])
@@ -88,6 +89,11 @@ func c29sGen(t *rapid.T) c29sCase {
 	}
 	if c.Parser != "test" && rapid.IntRange(0, 3).Draw(t, "broken") == 0 {
 		c.Break = rapid.IntRange(1, n).Draw(t, "break")
+		if rapid.Bool().Draw(t, "periodic") {
+			// recovery runs again and again: fewer than 512 shifts between two errors
+			c.Break = rapid.IntRange(1, min(n, 40)).Draw(t, "firstBreak")
+			c.Every = rapid.IntRange(1, 40).Draw(t, "every")
+		}
 	}
 	c.Cancel = []int{0}
 	for i := 0; i < 5; i++ {
@@ -121,19 +127,34 @@ func c29sCheck(c c29sCase, r *ev.Recorder) *Failure {
 	r.Eval(1)
 	lx := c12LexerByName(c.Parser)
 	toks := lx.run(src, len(src)+3)
-	tokensAfter := func(off int) int {
+	short := func() string { return fmt.Sprintf("%s parser, %d units (%d bytes, %d tokens, %d events uncancelled), break=%d every=%d", c.Parser, len(c.Units), len(src), len(toks), len(base.Events), c.Break, c.Every) }
+	// tokens skipped by error recovery are consumed but not shifted; all of them lie inside a
+	// SyntaxProblem node of the uncancelled parse, so tokens inside those nodes are not counted
+	var problems []spEvent
+	for _, e := range base.Events {
+		if e.Type == "SyntaxProblem" {
+			problems = append(problems, e)
+		}
+	}
+	if len(base.Errors) > 0 && len(problems) == 0 {
+		problems = append(problems, spEvent{Off: 0, End: len(src)}) // unknown shape: no bound
+	}
+	shiftedBetween := func(lo, hi int) int {
 		n := 0
+	next:
 		for _, t := range toks {
-			if t.start >= off && t.tok != 0 {
-				n++
+			if t.start < lo || t.start >= hi || t.tok == 0 {
+				continue
 			}
+			for _, p := range problems {
+				if t.start >= p.Off && t.start < p.End {
+					continue next
+				}
+			}
+			n++
 		}
 		return n
 	}
-	short := func() string { return fmt.Sprintf("%s parser, %d units (%d bytes, %d tokens, %d events uncancelled), break=%d", c.Parser, len(c.Units), len(src), len(toks), len(base.Events), c.Break) }
-	// tokens skipped by error recovery are consumed but not shifted: the bound is only checked
-	// on inputs the uncancelled parse accepts without calling the error handler
-	noRecovery := len(base.Errors) == 0
 	sawCtx, sawDone := false, false
 	for _, k0 := range c.Cancel {
 		k := k0
@@ -168,7 +189,7 @@ func c29sCheck(c c29sCase, r *ev.Recorder) *Failure {
 					posEnd = e.End
 				}
 			}
-			if n := tokensAfter(posAtCancel) - tokensAfter(posEnd); noRecovery && n > c29Bound+64 {
+			if n := shiftedBetween(posAtCancel, posEnd); n > c29Bound+64 {
 				return failf("late-stop:"+c.Parser, "cancelled at event %d (input position >= %d) the parser went on reporting nodes up to offset %d, %d tokens later (bound %d); %s", k, posAtCancel, posEnd, n, c29Bound, short())
 			}
 			continue
@@ -182,7 +203,7 @@ func c29sCheck(c c29sCase, r *ev.Recorder) *Failure {
 		if off, ok := spErrOffset(base.Err); ok {
 			stop = off
 		}
-		if rest := tokensAfter(posAtCancel) - tokensAfter(stop); noRecovery && rest > c29Bound+64 {
+		if rest := shiftedBetween(posAtCancel, stop); rest > c29Bound+64 {
 			return failf("cancellation-ignored:"+c.Parser, "cancelled at event %d (input position <= offset %d plus one statement) with %d tokens left, the parse ran to completion (bound %d); %s", k, posAtCancel, rest, c29Bound, short())
 		}
 	}
@@ -199,7 +220,7 @@ func c29sCheck(c c29sCase, r *ev.Recorder) *Failure {
 func TestC29S(t *testing.T) {
 	p := &prop[c29sCase]{
 		ID:   "C29",
-		Rule: "shipped cancellable parsers tm, js, test on long inputs assembled from 1..1200 statements of a per-language list (repeating random pattern; for tm/js optionally one broken statement so that recovery runs), up to ~15000 tokens; six runs per input: context cancelled before the parse and from inside the listener at five generated event numbers. Each run must return context.Canceled or reproduce error value, event count and event hash of the uncancelled parse; after a context error the reported nodes must not reach more than 2048(+64) tokens beyond the cancellation point, and a run that completed must have had at most that many tokens left. Non-trivial: an input for which both outcomes (context error and normal completion) occurred; distinct by (parser, pattern, length, cancel points).",
+		Rule: "shipped cancellable parsers tm, js, test on long inputs assembled from 1..1200 statements of a per-language list (repeating random pattern; for tm/js optionally a broken statement, once or again every 1..40 statements, so that recovery runs), up to ~15000 tokens; six runs per input: context cancelled before the parse and from inside the listener at five generated event numbers. Each run must return context.Canceled or reproduce error value, event count and event hash of the uncancelled parse; after a context error the reported nodes must not reach more than 2048(+64) tokens beyond the cancellation point, and a run that completed must have had at most that many tokens left (tokens inside SyntaxProblem nodes of the uncancelled parse are not counted: recovery skips them without shifting). Non-trivial: an input for which both outcomes (context error and normal completion) occurred; distinct by (parser, pattern, length, cancel points).",
 		Assume: []string{"the parser position at cancellation is estimated from the largest end offset reported so far (lags by at most one statement of the generated inputs)", "the bound tolerated is 4x the template's 512-shift polling interval"},
 		Quick:  600, Thorough: 30000,
 		Gen:   c29sGen,
